@@ -17,6 +17,10 @@ import (
 type Val struct {
 	T *Term
 	N int8 // 0 unknown, 1 nil, -1 non-nil
+	// LK/LV: the last element store s[LK] = LV into a local slice (read back by
+	// s[LK] until the variable is assigned, another element is stored, the
+	// slice is handed to a call or the key ages)
+	LK, LV *Term
 }
 
 type Label struct {
@@ -153,6 +157,13 @@ func (x *explorer) resolve(t *Term, st map[int]Val, depth int) *Term {
 	}
 	if depth > 40 {
 		return opaque("deep")
+	}
+	if t.Op == "index" && len(t.Args) == 2 && t.Args[0].Op == "var" && !isVolatile(t.Args[0].V) {
+		if v, ok := st[t.Args[0].V.ID]; ok && v.LK != nil {
+			if k := x.resolve(t.Args[1], st, depth+1); k.Key() == v.LK.Key() {
+				return v.LV
+			}
+		}
 	}
 	args := make([]*Term, len(t.Args))
 	changed := false
@@ -374,6 +385,9 @@ func (pg *PG) stateKey(n *Node, st map[int]Val, facts map[string]bool) string {
 		if v.N != 0 {
 			b.WriteString("^" + strconv.Itoa(int(v.N)))
 		}
+		if v.LK != nil {
+			b.WriteString("@" + v.LK.Key() + ":" + v.LV.Key())
+		}
 	}
 	if len(facts) > 0 {
 		var fk []string
@@ -575,6 +589,13 @@ func (x *explorer) havoc(n *Node, st map[int]Val) {
 		case "delete", "close", "copy", "recover", "chanrecv", "panic", "print", "println", "min", "max", "make", "new", "clear":
 			continue
 		}
+		for _, a := range c.Args {
+			if a.Op == "var" {
+				if v, ok := st[a.V.ID]; ok && v.T != nil {
+					forgetElems(st, v.T)
+				}
+			}
+		}
 		var rc *Term
 		for i, a := range c.Args {
 			switch a.Op {
@@ -596,6 +617,20 @@ func (x *explorer) havoc(n *Node, st map[int]Val) {
 					st[a.V.ID] = Val{T: &Term{Op: "outarg", Name: strconv.Itoa(i), Args: []*Term{rc}, Pos: c.Pos}, N: -1}
 				}
 			}
+		}
+	}
+}
+
+// forgetElems drops the remembered element store of every variable that holds
+// the collection t (the variable stored through and its aliases).
+func forgetElems(st map[int]Val, t *Term) {
+	if t == nil {
+		return
+	}
+	k := t.Key()
+	for id, v := range st {
+		if v.LK != nil && v.T != nil && v.T.Key() == k {
+			st[id] = Val{T: v.T, N: v.N}
 		}
 	}
 }
@@ -843,7 +878,15 @@ func (x *explorer) step(s *PState) []succ {
 				k := x.resolve(n.Target.Args[1], st, 0)
 				st2[mv.ID] = Val{T: mapPut(cur.T, k, v.T), N: -1}
 				done = true
+			} else if ok && cur.T != nil && v.T != nil {
+				// element store into a local slice: remembered for reading back
+				k := x.resolve(n.Target.Args[1], st, 0)
+				forgetElems(st2, cur.T)
+				st2[mv.ID] = Val{T: cur.T, N: cur.N, LK: k, LV: v.T}
 			}
+		} else if r, _ := splitPath(n.Target); r.Op == "index" {
+			// a store through any other path into an indexed collection
+			forgetElems(st2, x.resolve(r.Args[0], st, 0))
 		}
 		tk := x.deep(x.resolve(n.Target, st, 0), st, 0)
 		kind := "store"
@@ -899,8 +942,17 @@ func (x *explorer) step(s *PState) []succ {
 				// summarised (constant fields and loop keys kept, other fields dropped): the
 				// edge that appended them keeps the full term in its label
 				nt = summariseGrown(nt)
-				if nt != v.T {
-					st2[id] = Val{T: nt, N: v.N}
+				lk, lv := v.LK, v.LV
+				if lk != nil {
+					// the remembered element store survives only if its key is not this loop's
+					if ageTerm(lk, key) != lk {
+						lk, lv = nil, nil
+					} else {
+						lv = ageTerm(lv, key)
+					}
+				}
+				if nt != v.T || lk != v.LK || lv != v.LV {
+					st2[id] = Val{T: nt, N: v.N, LK: lk, LV: lv}
 				}
 			}
 		}
